@@ -20,12 +20,14 @@ class _Paginator:
         self.c = client
 
     def paginate(self, Bucket: str, Prefix: str = "", **_kw: Any) -> Iterator[Dict[str, Any]]:
-        keys = sorted(k for k in self.c.objects if k.startswith(Prefix))
-        if not keys:
-            yield {"KeyCount": 0}
-            return
-        for i in range(0, len(keys), 7):        # small pages: exercise pagination
-            yield {"Contents": [{"Key": k, "Size": len(self.c.objects[k][0]), "LastModified": self.c._lm(k)} for k in keys[i:i + 7]]}
+        # like botocore's paginator: repeated list_objects_v2 requests following the continuation token
+        token = None
+        while True:
+            resp = self.c.list_objects_v2(Bucket=Bucket, Prefix=Prefix, **({"ContinuationToken": token} if token is not None else {}))
+            yield resp
+            if not resp.get("IsTruncated"):
+                return
+            token = resp["NextContinuationToken"]
 
 
 class FakeS3:
@@ -66,12 +68,22 @@ class FakeS3:
         self.objects.pop(Key, None)
         return {}
 
-    def list_objects_v2(self, Bucket: str, Prefix: str = "", MaxKeys: int = 1000, **_kw: Any) -> Dict[str, Any]:
+    SERVER_PAGE = 7         # the service never returns more keys than this per response (S3: 1000): small, to exercise paging
+
+    def list_objects_v2(self, Bucket: str, Prefix: str = "", MaxKeys: int = 1000, ContinuationToken: Any = None, **_kw: Any) -> Dict[str, Any]:
         self.calls.append(("list", Prefix))
-        keys = sorted(k for k in self.objects if k.startswith(Prefix))[:MaxKeys]
-        if not keys:
-            return {"KeyCount": 0}
-        return {"Contents": [{"Key": k, "Size": len(self.objects[k][0]), "LastModified": self._lm(k)} for k in keys], "KeyCount": len(keys)}
+        keys = sorted(k for k in self.objects if k.startswith(Prefix))
+        if ContinuationToken is not None:
+            keys = [k for k in keys if k > ContinuationToken]
+        limit = max(0, min(MaxKeys, self.SERVER_PAGE))
+        page, rest = keys[:limit], keys[limit:]
+        if not page:
+            return {"KeyCount": 0, "IsTruncated": False}
+        out: Dict[str, Any] = {"Contents": [{"Key": k, "Size": len(self.objects[k][0]), "LastModified": self._lm(k)} for k in page],
+                               "KeyCount": len(page), "IsTruncated": bool(rest)}
+        if rest:
+            out["NextContinuationToken"] = page[-1]
+        return out
 
     def get_paginator(self, name: str) -> _Paginator:
         assert name == "list_objects_v2", name
